@@ -22,12 +22,12 @@ RULE = ("0-8 agents with arbitrary subsets of 4 component types and tags from {d
         "perturbation in between; non-trivial = a template of >=2 types that some agents match only partly, a tag-0 "
         "filter excluding >=1 agent and a candidate set >=2; distinct = sequence of (op, template size, tag, |answer|, "
         "|population|)"
-        "; also: tags reassigned while resident, a component type that subclasses another, model lifecycle ops, agents that are environments themselves (empty or inhabited), stretches of the history issued from inside a running timestep")
+        "; also: tags reassigned while resident, a component type that subclasses another, model lifecycle ops, agents that are environments themselves (empty or inhabited), stretches of the history issued from inside a running timestep, removals refused half-way (order must survive)")
 COMPONENTS = {"real": ["ECAgent.Core.Environment.get_agents / get_random_agent / shuffle / add_agent / remove_agent",
                        "Agent.has_component", "Model.random", "SpaceWorld (some runs)"],
               "stub": ["component classes and agents are harness-defined; global random / numpy.random are perturbed"]}
 PROBES = ["tag_zero_filter", "template_and_tag", "nobody_matches", "partial_template_match", "returned_list_mutated",
-          "reach_all_members", "same_seed_repeat", "type_nobody_has", "spatial_world", "default_tag_agent", "retag_while_resident", "model_lifecycle_op", "subclass_component_only", "agent_is_an_environment", "ops_from_inside_a_timestep", "agent_class_with_class_components"]
+          "reach_all_members", "same_seed_repeat", "type_nobody_has", "spatial_world", "default_tag_agent", "retag_while_resident", "model_lifecycle_op", "subclass_component_only", "agent_is_an_environment", "ops_from_inside_a_timestep", "agent_class_with_class_components", "removal_refused_half_way"]
 TECHNIQUE = "deterministic simulation: filter queries inside seeded add/remove histories vs a list-comprehension reference; bounded reachability over reseeded model generators; ambient RNG perturbation between picks"
 LEVEL_TEXT = ("Seeded search over populations, histories, templates and tag filters; every listing must equal the reference filter "
               "(identity, joining order, fresh list), every pick must be a member, every shuffle a permutation, nothing may "
@@ -67,6 +67,10 @@ class T5(T0):          # a subclass of T0: carrying T5 is NOT carrying T0 (compo
 TYPES = [T0, T1, T2, T3, T4]
 
 
+class Late(Component):   # attached to an agent AFTER it joined (never registered with the model): see op botched_remove
+    pass
+
+
 class Pack(Agent):
     """An agent class with CLASS components T0 and T1: a template asks what the agent itself carries, not what its class has."""
 TAGS = [None, 0, 1, 2, 7, 1001, 2 ** 70]      # small ints are shared objects in CPython; the large ones are not
@@ -102,6 +106,10 @@ def generate(rng, tier):
             ops.append({"op": "retag", "k": rng.randrange(len(pool)), "tag": rng.choice([0, 1, 2, 7, 1001])})
         elif r < 0.385:
             ops.append({"op": "lifecycle", "what": rng.choice(["step", "complete"])})
+        elif r < 0.4:
+            # a removal that may be refused half-way (on this tree: KeyError, the component attached after joining was never
+            # registered - C03's known finding F2): whoever stays keeps its place in the joining order
+            ops.append({"op": "botched_remove", "k": rng.randrange(len(pool))})
         else:
             tmpl, tag = gen_query(rng)
             kind = rng.choice(["get", "get", "pick", "pick", "shuffle", "reach", "repeat"])
@@ -188,6 +196,7 @@ def execute(sc, ctx):
         return len(got) == len(want) and all(x is y for x, y in zip(got, want))
 
     last_lists = []
+    stuck = set()
     gate = StepGate(ctx)
     for op in sc["ops"]:
         kind = op["op"]
@@ -217,12 +226,30 @@ def execute(sc, ctx):
         if kind == "remove":
             spec = pool[op["k"] % len(pool)]
             hit = [a for a in residents if a.id == spec["id"]]
-            if not hit:
+            if not hit or spec["id"] in stuck:
                 continue
             ctx.expect_ok("remove", env.remove_agent, spec["id"])
             residents.remove(hit[0])
             ctx.event("remove", spec["id"])
             shape.append(["rm", len(residents)])
+            continue
+        if kind == "botched_remove":
+            spec = pool[op["k"] % len(pool)]
+            hit = [a for a in residents if a.id == spec["id"]]
+            if not hit or spec["id"] in stuck:
+                continue
+            if Late not in hit[0].components:
+                hit[0].add_component(Late(hit[0], m))
+            st, v = ctx.call(env.remove_agent, spec["id"])
+            if st == "ok":
+                residents.remove(hit[0])
+            else:
+                ctx.check(isinstance(v, KeyError), "remove:unexpected-exception", f"{type(v).__name__}: {v}")
+                ctx.probe("removal_refused_half_way")
+                stuck.add(spec["id"])      # (what the refusal leaves behind is C03's finding F2; this agent is not removed again)
+            ctx.check(same(list(env), residents), "order-after-refused-removal",
+                      lambda: f"after remove_agent({spec['id']!r}) {'succeeded' if st == 'ok' else 'was refused'} the environment "
+                              f"iterates {[a.id for a in env]}, joining order {[a.id for a in residents]}")
             continue
         if kind == "lifecycle":
             ctx.expect_ok("lifecycle", m.complete if op["what"] == "complete" else m.execute)
